@@ -41,6 +41,21 @@ Definition user_call : M st unit :=
            | Some u => Ok tt (fst s, u)
            | None => Panic PUser (fst s, disarm (snd s))
            end.
+(** User code called while a panic is already unwinding never consults the fuse
+    (the harness's element types check [std::thread::panicking()]). *)
+Definition quiet_st {A} (m : M st A) : M st A :=
+  fun s =>
+    let f := ufuse (snd s) in
+    let restore (s' : st) : st :=
+      (fst s', {| ulog := ulog (snd s'); unext := unext (snd s'); ufuse := f |}) in
+    match m (fst s, disarm (snd s)) with
+    | Ok a s' => Ok a (restore s')
+    | Panic p s' => Panic p (restore s')
+    | Fault f0 => Fault f0
+    end.
+Definition unwinding_st {A} (m : M st A) (cleanup : M st unit) : M st A :=
+  on_unwind m (quiet_st cleanup).
+
 Definition fresh (c : cfg) : M st N :=
   fun s => let u := snd s in
            let t := if c_sz c =? 0 then 0 else unext u in
@@ -178,7 +193,7 @@ Fixpoint drop_slice (c : cfg) (off : nat) (count : nat) : M st unit :=
       fun s => match drop_at c off s with
                | Ok _ s' => drop_slice c (off + szn c)%nat k s'
                | Panic p s' =>
-                   match drop_slice c (off + szn c)%nat k s' with
+                   match quiet_st (drop_slice c (off + szn c)%nat k) s' with
                    | Ok _ s'' => Panic p s''
                    | Panic _ _ => Fault FAbort
                    | Fault f => Fault f
@@ -282,7 +297,7 @@ Definition clear (c : cfg) : M st unit :=
 
 (** Vector [Drop]: [clear], then the [Mem] field is dropped (also while unwinding). *)
 Definition drop_vec (c : cfg) : M st unit :=
-  on_unwind (clear c) (mem_drop c);;
+  unwinding_st (clear c) (mem_drop c);;
   mem_drop c.
 
 (** Typed snapshot [as_slice()] of the first [len] slots. *)
@@ -303,7 +318,7 @@ Fixpoint clone_loop (c : cfg) (src : mem) (i : nat) (count : nat) : M st unit :=
 (** The state's vector is the clone under construction; [src] is the source. *)
 Definition clone_vec (c : cfg) (src : vec) : M st unit :=
   mem_build c (vbk src);;
-  on_unwind
+  unwinding_st
     (reserve c (vlen src);;
      clone_loop c (vmem src) 0 (N.to_nat (vlen src));;
      setv (with_len (vlen src)))
